@@ -1702,7 +1702,7 @@ func (p *Parser) parseBooleanExpression(single bool, negated bool, scriptName st
 		if p.curToken.Type != token.RPAREN {
 			return nil, nil, NewRangeParseError(openToken, p.curToken, "missing closing ')' for nested boolean expression")
 		}
-		if p.peekTokenIs(token.AND) || p.peekTokenIs(token.OR) {
+		if !single && (p.peekTokenIs(token.AND) || p.peekTokenIs(token.OR)) {
 			p.nextToken()
 			rightExpression, rightImpData, err := p.parseRightSideExpression(nestedExpression, single, negated, scriptName)
 			if err != nil {
@@ -1783,18 +1783,13 @@ func (p *Parser) parseRightSideExpression(left ast.BooleanExpression, single boo
 		if p.curToken.Type != token.AND && p.curToken.Type != token.OR {
 			return nil, nil, NewParseError(p.curToken, fmt.Sprintf("expected '&&', '||' or ')' in boolean expression, but got '%s' instead", p.curToken.Literal))
 		}
-		operator = p.curToken.Type
-		if negated {
-			operator = getNegatedBooleanOperator(p.curToken.Type)
-		}
-		binaryExpression := &ast.BinaryExpression{Left: grouped, Operator: operator}
-		boolExpression, exprImpData, err := p.parseBooleanExpression(false, negated, scriptName)
+		// '&&' binds tighter than '||', so the grouped pair is the left side of whatever follows.
+		rightExpression, rightImpData, err := p.parseRightSideExpression(grouped, single, negated, scriptName)
 		if err != nil {
 			return nil, nil, err
 		}
-		impData.add(exprImpData)
-		binaryExpression.Right = boolExpression
-		return binaryExpression, impData, nil
+		impData.add(rightImpData)
+		return rightExpression, impData, nil
 	} else if p.curToken.Type == token.OR {
 		operator := curTokenType
 		right, exprImpData, err := p.parseBooleanExpression(false, negated, scriptName)
